@@ -106,6 +106,8 @@ def run_e2(chk, src, name, timeout=60, harness_args=(), support=C.FEAT_MIN_SRCS,
                 cex.append((c, r1))
             else:
                 chk.inconcl(oname, r1.get('why', ''), queries=r1['queries'], solver_s=r1['solver_s'])
+        if ntriv and len(chk.samples) < 4 and not any(x.get('case') == cname for x in chk.samples):
+            chk.samples.append({'case': cname, 'engine': 'E2', 'obligations': len(res), 'identical_dag_terms': ntriv, 'facts': len(c['facts']), 'path_conditions': info['pcs'], 'config': c['meta']})
         chk.extra['e2_trivially_identical_terms'] = chk.extra.get('e2_trivially_identical_terms', 0) + ntriv
         chk.extra['e2_path_conditions'] = chk.extra.get('e2_path_conditions', 0) + info['pcs']
         chk.extra['e2_divisors_assumed_nonzero'] = chk.extra.get('e2_divisors_assumed_nonzero', 0) + info['divisors_assumed_nonzero']
